@@ -4,6 +4,7 @@ package lab
 
 import (
 	"bufio"
+	"crypto/tls"
 	"encoding/base64"
 	"fmt"
 	"net"
@@ -27,6 +28,7 @@ type rtEnv struct {
 	ca                  *CA
 	oa, ob, ol          *Peer // origins: 127.0.0.2, 127.0.0.3, 127.0.0.1 ("localhost")
 	p, q, t, s, r       *Peer // http proxy P, http proxy Q, https proxy T, socks5 S, redirect target R
+	oa80, oa443         *Peer // a.test on the default ports (plain :80, TLS :443); nil if the ports cannot be bound
 	mu                  sync.Mutex
 	socks               []Socks5Req
 	peers               map[string]*Peer
@@ -101,6 +103,15 @@ func getRT() (*rtEnv, error) {
 		}, rtResolve))
 		e.r = mk("R", "127.0.0.8", nil, HTTPHandler(proxyResponder("R"), TunnelTo(rtResolve)))
 		if rtErr == nil {
+			// default-port origins for a.test (C06: ports implied by the scheme); optional
+			if p, err := StartPeerAt("OA80", "127.0.0.2:80", nil, HTTPHandler(proxyResponder("OA80"), nil)); err == nil {
+				e.oa80 = p
+				e.peers["OA80"] = p
+			}
+			if p, err := StartPeerAt("OA443", "127.0.0.2:443", e.ca.ServerTLS("a.test"), HTTPHandler(proxyResponder("OA443"), nil)); err == nil {
+				e.oa443 = p
+				e.peers["OA443"] = p
+			}
 			rt = e
 		}
 	})
@@ -158,6 +169,7 @@ type RTConfig struct {
 	Localhost  string            `json:"localhost"` // allow | direct
 	ConnectTo  []string          `json:"connect_to,omitempty"` // templates with @X.host @X.port
 	Creds      []string          `json:"creds,omitempty"`      // templates user:pass@<host>:<port>
+	MITM       bool              `json:"mitm,omitempty"`
 }
 
 type RTReq struct {
@@ -188,6 +200,10 @@ func (e *rtEnv) subst(s string) string {
 
 func (e *rtEnv) hostOf(letter string) (host string, peer *Peer) {
 	switch letter {
+	case "A80":
+		return "a.test", e.oa80
+	case "A443":
+		return "a.test", e.oa443
 	case "A":
 		return "a.test", e.oa
 	case "B":
@@ -268,7 +284,9 @@ func genRTConfig(t *rapid.T, withCreds bool) RTConfig {
 		}
 		pool := []string{"pxuser:pxsecret-exact@@P", "pxuser:pxsecret-q@@Q", "pxuser:pxsecret-t@@T", "pxuser:pxsecret-s@@S",
 			"siteuser:sitesecret-a@a.test:@OA.port", "siteuser:sitesecret-hostwild@a.test:*", "siteuser:sitesecret-portwild@*:@OB.port",
-			"siteuser:sitesecret-l@localhost:@OL.port", "siteuser:sitesecret-global@*:*", "siteuser:sitesecret-portwild-a@*:@OA.port", "pxuser:pxsecret-hostwild@127.0.0.4:*"}
+			"siteuser:sitesecret-l@localhost:@OL.port", "siteuser:sitesecret-global@*:*", "siteuser:sitesecret-portwild-a@*:@OA.port", "pxuser:pxsecret-hostwild@127.0.0.4:*",
+			"siteuser:sitesecret-a443@a.test:443", "siteuser:sitesecret-a80@a.test:80", "siteuser:sitesecret-any443@*:443", "siteuser:sitesecret-any80@*:80"}
+		c.MITM = rapid.IntRange(0, 4).Draw(t, "mitm") == 0
 		seen := map[string]bool{}
 		n := rapid.IntRange(0, 5).Draw(t, "ncreds")
 		for i := 0; i < n; i++ {
@@ -283,12 +301,26 @@ func genRTConfig(t *rapid.T, withCreds bool) RTConfig {
 	return c
 }
 
-func genRTReqs(t *rapid.T, withCreds bool) []RTReq {
+func genRTReqs(t *rapid.T, withCreds bool, mitm bool) []RTReq {
 	var out []RTReq
 	n := rapid.IntRange(1, 4).Draw(t, "nreqs")
 	for i := 0; i < n; i++ {
 		r := RTReq{Host: rapid.SampledFrom([]string{"A", "A", "B", "L"}).Draw(t, "host"), Kind: rapid.SampledFrom([]string{"http", "http", "connect"}).Draw(t, "kind"),
 			Method: rapid.SampledFrom([]string{"GET", "POST", "HEAD"}).Draw(t, "method")}
+		if withCreds {
+			// targets whose port is implied by the scheme: http://a.test/ and (inside MITM) https://a.test/
+			switch rapid.IntRange(0, 5).Draw(t, "defport") {
+			case 0, 1:
+				r.Host, r.Kind = "A80", "http"
+			case 2, 3:
+				if mitm {
+					r.Host, r.Kind = "A443", "mitm"
+				}
+			}
+			if mitm && r.Kind == "connect" {
+				r.Kind = "http" // with MITM on, a CONNECT is intercepted, not an opaque tunnel
+			}
+		}
 		if withCreds {
 			switch rapid.IntRange(0, 5).Draw(t, "pa") {
 			case 0:
@@ -371,7 +403,7 @@ func (e *rtEnv) refRoute(cfg RTConfig, r RTReq) route {
 		case "S":
 			x.hopKind, x.hopAddr = "socks5", e.s.Addr
 		case "pac":
-			res, ok := cfg.PAC[r.Host]
+			res, ok := cfg.PAC[strings.TrimRight(r.Host, "0123456789")]
 			if !ok {
 				res = cfg.PAC["*"]
 			}
@@ -439,7 +471,7 @@ func (e *rtEnv) refRoute(cfg RTConfig, r RTReq) route {
 // Execution
 
 func (e *rtEnv) startProxy(cfg RTConfig) (*ProxyInst, error) {
-	o := ProxyOpts{CA: e.ca, RootCAs: e.ca.Pool, ProxyLocalhost: forwarder.ProxyLocalhostMode(cfg.Localhost), DirectDomains: cfg.DirectDom,
+	o := ProxyOpts{CA: e.ca, RootCAs: e.ca.Pool, MITM: cfg.MITM, ProxyLocalhost: forwarder.ProxyLocalhostMode(cfg.Localhost), DirectDomains: cfg.DirectDom,
 		DialTimeout: 3 * time.Second, ConnectTimeout: 5 * time.Second, ShutdownTimeout: 2 * time.Second}
 	ui := ""
 	if cfg.UserInfo != "" {
@@ -507,7 +539,32 @@ func (e *rtEnv) rtExchange(px *ProxyInst, r RTReq, vid string) rtObs {
 		hdr += "Content-Length: 2\r\n"
 		body = "hi"
 	}
-	if r.Kind == "connect" {
+	urlHost := target
+	if origin.Port == "80" {
+		urlHost = host // the port is implied by the scheme
+	}
+	if r.Kind == "mitm" {
+		// CONNECT, TLS with the proxy's generated certificate, then an origin-form request: https with an implied port
+		fmt.Fprintf(tc, "CONNECT %s HTTP/1.1\r\nHost: %s\r\n\r\n", target, target)
+		m, err := ReadResponse(br, "CONNECT")
+		if err != nil || m.Status != 200 {
+			o.err = fmt.Errorf("MITM CONNECT: %v", err)
+		} else {
+			t := tls.Client(tc, &tls.Config{RootCAs: e.ca.Pool, ServerName: host})
+			if err := t.Handshake(); err != nil {
+				o.err = fmt.Errorf("MITM handshake: %w", err)
+			} else {
+				fmt.Fprintf(t, "%s /plain HTTP/1.1\r\nHost: %s\r\nX-Vid: %s\r\n%s\r\n%s", r.Method, host, vid, hdr, body)
+				m2, err := ReadResponse(bufio.NewReader(t), r.Method)
+				if err != nil {
+					o.err = err
+				} else {
+					o.status = m2.Status
+					o.servedBy = m2.First("X-Served-By")
+				}
+			}
+		}
+	} else if r.Kind == "connect" {
 		fmt.Fprintf(tc, "CONNECT %s HTTP/1.1\r\nHost: %s\r\n%s\r\n", target, target, strings.ReplaceAll(hdr, "Content-Length: 2\r\n", ""))
 		m, err := ReadResponse(br, "CONNECT")
 		if err != nil {
@@ -536,7 +593,7 @@ func (e *rtEnv) rtExchange(px *ProxyInst, r RTReq, vid string) rtObs {
 			}
 		}
 	} else {
-		fmt.Fprintf(tc, "%s http://%s/plain HTTP/1.1\r\nHost: %s\r\nX-Vid: %s\r\n%s\r\n%s", r.Method, target, target, vid, hdr, body)
+		fmt.Fprintf(tc, "%s http://%s/plain HTTP/1.1\r\nHost: %s\r\nX-Vid: %s\r\n%s\r\n%s", r.Method, urlHost, urlHost, vid, hdr, body)
 		m, err := ReadResponse(br, r.Method)
 		if err != nil {
 			o.err = err
@@ -611,7 +668,7 @@ func judgeRoute(e *rtEnv, cfg RTConfig, r RTReq, i int, x route, o rtObs) (fails
 	_, origin := e.hostOf(r.Host)
 	key := func(clause string) string {
 		if cfg.Upstream == "pac" {
-			res, ok := cfg.PAC[r.Host]
+			res, ok := cfg.PAC[strings.TrimRight(r.Host, "0123456789")]
 			if !ok {
 				res = cfg.PAC["*"]
 			}
@@ -754,7 +811,7 @@ func classifyRT(c RTCase) (bool, string, []string) {
 }
 
 var propC05 = vstat.Prop[RTCase]{Name: "TestC05Routing",
-	Gen: func(t *rapid.T) RTCase { return RTCase{Cfg: genRTConfig(t, false), Reqs: genRTReqs(t, false)} },
+	Gen: func(t *rapid.T) RTCase { return RTCase{Cfg: genRTConfig(t, false), Reqs: genRTReqs(t, false, false)} },
 	Run: runC05, Classify: classifyRT}
 
 func TestC05Routing(t *testing.T) { propC05.Check(t, st) }
